@@ -42,7 +42,11 @@ func Inradius(ring []P2, cx, cy float64) float64 {
 // sectors of the shell's inscribed disc (hence strictly inside the shell and mutually disjoint).
 // It returns the rings (shell first, all counter-clockwise, unclosed) and the hole centres/radii.
 func StarPolygon(t *rapid.T, cx, cy, R float64, maxHoles int) (rings [][]P2, holes [][3]float64) {
-	shell := StarRing(t, cx, cy, R, 3, 12, 0.35)
+	nmin, nmax := 3, 12
+	if rapid.IntRange(0, 39).Draw(t, "bigring") == 7 {
+		nmin, nmax = 100, 400 // shells with hundreds of vertices (size-dependent code paths, long sweep-line status)
+	}
+	shell := StarRing(t, cx, cy, R, nmin, nmax, 0.35)
 	rings = append(rings, shell)
 	if maxHoles <= 0 {
 		return
